@@ -88,7 +88,7 @@ Definition applicable (t : tamper) (x : tx * list txout) : bool :=
   | TSwapValue j k => out2_at T j k (fun x y => value_is_conf (o_value x) && value_is_conf (o_value y))
   | TSwapAsset j k => out2_at T j k (fun x y => match o_asset x, o_asset y with AConf _, AConf _ => true | _, _ => false end)
   | TRemoveRp j | TCorruptRp j => out_at T j (fun o => value_is_conf (o_value o) && match o_rp o with Some _ => true | None => false end)
-  | TSwapRp j k => out2_at T j k (fun x y => value_is_conf (o_value x) && value_is_conf (o_value y))
+  | TSwapRp j k => out2_at T j k (fun x y => value_is_conf (o_value x) && value_is_conf (o_value y) && asset_kind_eq (o_asset x) (o_asset y))
   | TRemoveSp j | TCorruptSp j => out_at T j (fun o => match o_asset o, o_sp o with AConf _, Some _ => true | _, _ => false end)
   | TSwapSp j k => out2_at T j k (fun x y => match o_asset x, o_asset y with AConf _, AConf _ => true | _, _ => false end)
   | TScript j s => out_at T j (fun o => value_is_conf (o_value o))
@@ -97,9 +97,12 @@ Definition applicable (t : tamper) (x : tx * list txout) : bool :=
                        | None => false end
   | TSpentValue i v => match nth_error spent i with Some u => value_kind_eq (o_value u) v && value_u64 v | None => false end
   (* a spent output's asset is read only to build the surjection domain and to turn an EXPLICIT spent amount into a
-     commitment; with a confidential spent amount and no confidential-asset output the function never uses it *)
+     commitment; with a confidential spent amount and no confidential-asset output the function never uses it.
+     (An explicit amount under a CONFIDENTIAL spent asset with no surjection proof in the transaction is left out too:
+     rejecting it needs the amount to be invertible modulo the group order, i.e. primality of n, which is not proved here.) *)
   | TSpentAsset i a => match nth_error spent i with
-                       | Some u => asset_kind_eq (o_asset u) a && (value_is_explicit (o_value u) || has_conf_asset_output T)
+                       | Some u => asset_kind_eq (o_asset u) a
+                                   && (has_conf_asset_output T || (value_is_explicit (o_value u) && asset_is_explicit (o_asset u)))
                        | None => false end
   end.
 
